@@ -70,7 +70,7 @@ Theorem C06_suspend_resume_commit_eq_commit_2a :
     (snd b = ROk -> upload (fst a) = upload (fst b) /\ wg (fst a) = wg (fst b)).
 Proof.
   intros C s w HI Hb Hw Hf. apply (suspend_resume_commit C true true s w HI Hb Hw Hf).
-  - intros _. destruct (HI Hb) as [Hm _]. apply Hm. reflexivity.
+  - destruct (HI Hb) as [Hm _]. split; intros _; [reflexivity|apply Hm; reflexivity].
   - intro H; discriminate.
 Qed.
 Print Assumptions C06_suspend_resume_commit_eq_commit_2a.
@@ -83,11 +83,51 @@ Example C06_suspend_resume_commit_ex :
   snd (step cat_2a true Commit (suspend_resume cat_2a true true (run cat_2a true [Ins 42] s))) = ROk.
 Proof. vm_compute. repeat split; try reflexivity. eexists. split; [reflexivity|intros []]. Qed.
 
-(* the general form: with or without a reopen, any format, under executable guards *)
+(* any format (knit included), across a reopen, NO guard on the write group: a group built by
+   Start + ANY insertion sequence on an object whose missing-compression-parent memory was empty
+   (a fresh object; any 2a object; a knit object that never aborted/suspended a group with a
+   dangling delta).  This is the statement the repair 3775d0a makes true for knit. *)
+Theorem C06_suspend_resume_commit_eq_commit_fresh :
+  forall C is_gc s0 ks, Inv C is_gc s0 -> wg s0 = None -> broken s0 = false -> mcp s0 = [] ->
+    ~ In ks (upload s0) ->
+    let s := run C is_gc (Start :: map Ins ks) s0 in
+    let a := step C is_gc Commit (suspend_resume C is_gc true s) in
+    let b := step C is_gc Commit s in
+    snd a = snd b /\
+    (forall k, In k (visible (fst a)) <-> In k (visible (fst b))) /\
+    (snd b = ROk -> upload (fst a) = upload (fst b) /\ wg (fst a) = wg (fst b)).
+Proof.
+  intros C is_gc s0 ks HI Hw Hb Hm Hf s.
+  destruct (mcp_agrees_fresh C is_gc s0 ks Hw Hb Hm) as (Hb' & Hw' & Hg). fold s in Hb', Hw', Hg.
+  assert (Hup : upload s = upload s0).
+  { unfold s. simpl. rewrite (step_start C is_gc s0 Hw Hb). simpl.
+    destruct (run_inserts_shape C is_gc ks
+                (St (listed s0) (upload s0) (Some (WG [] [])) (mcp s0) (newrevs s0) (resident s0) false)
+                (WG [] []) eq_refl eq_refl) as (_ & H2 & _). exact H2. }
+  apply (suspend_resume_commit C is_gc true s (WG ks [])).
+  - apply Inv_run. exact HI.
+  - exact Hb'.
+  - exact Hw'.
+  - simpl. rewrite Hup. exact Hf.
+  - exact Hg.
+  - intro H; discriminate.
+Qed.
+Print Assumptions C06_suspend_resume_commit_eq_commit_fresh.
+
+Example C06_suspend_resume_commit_fresh_knit_ex :
+  let s := run cat_knit false (Start :: map Ins [43; 12]) init in
+  snd (step cat_knit false Commit s) = RErr ECheck /\
+  snd (step cat_knit false Commit (suspend_resume cat_knit false true s)) = RErr ECheck /\
+  snd (step cat_knit false Commit (suspend_resume cat_knit false true (run cat_knit false [Ins 41; Ins 11] s))) = ROk.
+Proof. vm_compute. repeat split; reflexivity. Qed.
+
+(* the general form: with or without a reopen, any format, any reachable state, under the guards
+   "the object's missing-compression-parent memory is empty exactly when the group lacks none"
+   (executable: both sides are lists) and, without a reopen, "tokens not registered in this object" *)
 Theorem C06_suspend_resume_commit_eq_commit_guarded :
   forall C is_gc (reopen : bool) s w,
     Inv C is_gc s -> broken s = false -> wg s = Some w -> ~ In (wnew w) (upload s) ->
-    (reopen = true -> mcp s = []) ->
+    (mcp s = [] <-> missing_comp C is_gc (view s) (wg_items w) = []) ->
     (reopen = false -> forall n, In n (wres w) \/ n = wnew w -> ~ In n (resident s)) ->
     let a := step C is_gc Commit (suspend_resume C is_gc reopen s) in
     let b := step C is_gc Commit s in
@@ -97,19 +137,26 @@ Theorem C06_suspend_resume_commit_eq_commit_guarded :
 Proof. exact suspend_resume_commit. Qed.
 Print Assumptions C06_suspend_resume_commit_eq_commit_guarded.
 
-(* knit, across a reopen, WITHOUT the guard "no missing compression parent is pending": refuted.
-   The direct commit is a clean refusal (state unchanged); the resumed one passes the refusal
-   checks (the fresh object only re-scans the revision index) and fails inside Pack.finish with
-   the write group torn down (candidate finding C06-knit-resume-forgets-missing-parents) *)
-Theorem C06_suspend_resume_commit_knit_refuted :
+(* what remains false without the guard (knit): the stale memory of finding
+   C06-knit-stale-missing-parents makes the DIRECT commit of a complete group fail while the
+   suspended + resumed-by-a-fresh-object one is accepted *)
+Theorem C06_suspend_resume_commit_stale_refuted :
   exists ops,
     let s := run cat_knit false ops init in
     snd (step cat_knit false Commit s) = RErr ECheck /\
-    fst (step cat_knit false Commit s) = s /\
-    snd (step cat_knit false Commit (suspend_resume cat_knit false true s)) = RErr ECheckFinish /\
-    broken (fst (step cat_knit false Commit (suspend_resume cat_knit false true s))) = true.
-Proof. exact suspend_reopen_resume_commit_knit_refuted. Qed.
-Print Assumptions C06_suspend_resume_commit_knit_refuted.
+    snd (step cat_knit false Commit (suspend_resume cat_knit false true s)) = ROk.
+Proof. exact suspend_reopen_resume_commit_stale_refuted. Qed.
+Print Assumptions C06_suspend_resume_commit_stale_refuted.
+
+(* repaired by /repo 3775d0a (was C06_suspend_resume_commit_knit_refuted, finding
+   C06-knit-resume-forgets-missing-parents): a fresh object resuming a knit group with a pending
+   missing compression parent now refuses the commit cleanly, state unchanged *)
+Theorem C06_resumed_missing_parent_is_refused :
+  let s := run cat_knit false [Start; Ins 43] init in
+  step cat_knit false Commit (suspend_resume cat_knit false true s) =
+    (suspend_resume cat_knit false true s, RErr ECheck).
+Proof. exact resumed_missing_parent_is_refused. Qed.
+Print Assumptions C06_resumed_missing_parent_is_refused.
 
 (* same object, write group that was itself resumed: suspend ; resume fails (AssertionError of
    add_pack_to_memory) -- candidate finding C06-resume-again-on-same-object *)
